@@ -70,7 +70,7 @@ def parseHost (idna : Idna) (s : List Nat) (isOpaque : Bool) : Option Host :=
           else none
         | p :: rest =>
           if p < 0x80 ∧ p ≠ 0x25 then
-            if ¬ (p ≥ 0x3C ∧ p ≤ 0x3E ∧ (match rest with | n :: _ => decide (n ≥ 0x80) | [] => false) = true)
+            if ¬ (p ≥ 0x3C ∧ p ≤ 0x3E ∧ (match rest with | n :: _ => decide (n ≥ 0x80) || n == 0x25 | [] => false) = true)
             then some none else none
           else none
       match fast with
